@@ -37,7 +37,7 @@ from ..docstrings import (
 )
 from ..iodata import IOData
 from ..periodic import bond2num, num2sym, sym2num
-from ..utils import LineIterator, LoadError, LoadWarning, angstrom
+from ..utils import DumpError, LineIterator, LoadError, LoadWarning, angstrom
 
 __all__ = ()
 
@@ -299,6 +299,12 @@ def dump_one(f: TextIO, data: IOData):
         attype = str(n + str(i + 1))[:4] if attypes is None else attypes[i]
         restype = "XXX" if restypes is None else restypes[i]
         chain = " " if chainids is None else chainids[i]
+        if len(attype) > 4 or len(restype) > 3 or len(chain) > 1:
+            raise DumpError(
+                f"Atom name '{attype}', residue name '{restype}' or chain ID '{chain}' "
+                "does not fit in the columns of the PDB format.",
+                f,
+            )
         out1 = f"{i+1:>5d} {attype:<4s} {restype:3s} {chain:1s}{resnum:>4d}    "
         out2 = f"{x:8.3f}{y:8.3f}{z:8.3f}{occ:6.2f}{b:6.2f}{n:>12s}"
         print("ATOM  " + out1 + out2, file=f)
